@@ -136,7 +136,13 @@ func (r *Record) Start() int {
 
 // Bin returns the BAM index bin of the record.
 func (r *Record) Bin() int {
-	return int(internal.BinFor(r.Pos, r.End()))
+	end := r.End()
+	if end == r.Pos {
+		// A read whose CIGAR consumes no reference bases
+		// is treated as having length one.
+		end++
+	}
+	return int(internal.BinFor(r.Pos, end))
 }
 
 // Len returns the length of the alignment.
